@@ -46,16 +46,32 @@ type c10Req struct {
 	Upd        bool `json:"upd,omitempty"`         // the handler calls Server.ResourceUpdated with its own context (every session is subscribed)
 	Logs       int  `json:"logs,omitempty"`        // log records emitted through the session's slog LoggingHandler with the request's context
 	MRTR       bool `json:"mrtr,omitempty"`        // the handler first returns InputRequests (roots/list); the server asks the legacy client itself, then re-invokes it
+	StrID      bool `json:"str_id,omitempty"`      // the JSON-RPC id travels as the string "<id>", which is a different id from the number <id>
+	After      int  `json:"after,omitempty"`       // Inst of an earlier request of the session with the same JSON-RPC id: this one is POSTed start_ms after that exchange has completed (a legal re-use of the id)
+	Batch      int  `json:"batch,omitempty"`       // >0: travels in one POST (a JSON-RPC batch, protocol 2025-03-26) with the session's other requests of the same batch number, at the first member's start_ms
 }
+
+// wire is the JSON-RPC id as it travels.
+func (q c10Req) wire() string {
+	if q.StrID {
+		return fmt.Sprintf(`"%d"`, q.ID)
+	}
+	return fmt.Sprint(q.ID)
+}
+
+// idKey identifies a JSON-RPC id within its session.
+func (q c10Req) idKey() string { return fmt.Sprintf("%d/%s", q.Sess, q.wire()) }
 
 type c10Spec struct {
 	Mode     string   `json:"mode"` // stateful-sse | stateful-json | stateless-sse | stateless-json
 	Store    bool     `json:"store"`
 	Sessions int      `json:"sessions"`
 	Reqs     []c10Req `json:"reqs"`
-	BgNotes  []int    `json:"bg_notes_ms"`        // instants at which every session gets an out-of-band notification
-	CaseIDs  bool     `json:"case_ids,omitempty"` // ServerOptions.GetSessionID issues ids that differ from one another only in letter case
-	Real     bool     `json:"real,omitempty"`     // outside the bubble: a real net/http server on a loopback socket and a real http.Client (wall-clock milliseconds; only the rules that do not depend on time are decided)
+	BgNotes  []int    `json:"bg_notes_ms"`         // instants at which every session gets an out-of-band notification
+	CaseIDs  bool     `json:"case_ids,omitempty"`  // ServerOptions.GetSessionID issues ids that differ from one another only in letter case
+	Proto    string   `json:"proto,omitempty"`     // protocol version every session negotiates and names in Mcp-Protocol-Version ("": 2025-06-18)
+	InitNote bool     `json:"init_note,omitempty"` // a receiving middleware reports progress with the context of the initialize request (stateless: one initialize POST per session index)
+	Real     bool     `json:"real,omitempty"`      // outside the bubble: a real net/http server on a loopback socket and a real http.Client (wall-clock milliseconds; only the rules that do not depend on time are decided)
 }
 
 func genC10(r *vh.Rand) c10Spec {
@@ -95,6 +111,7 @@ func genC10(r *vh.Rand) c10Spec {
 				} else if !s.Store {
 					s.Reqs[len(s.Reqs)-1].Drop, s.Reqs[len(s.Reqs)-1].CutMs = true, r.Intn(3)
 					s.Reqs[len(s.Reqs)-1].S2C, s.Reqs[len(s.Reqs)-1].S2CTimeout = false, false
+					s.Reqs[len(s.Reqs)-1].MRTR = false // (nor the nested request the server sends for a multi-round-trip tool: unanswered, it would keep the handler, and the session's Close, waiting forever)
 					d.StartMs = q.StartMs + s.Reqs[len(s.Reqs)-1].CutMs + r.Intn(3)
 				}
 				s.Reqs = append(s.Reqs, d)
@@ -109,7 +126,46 @@ func genC10(r *vh.Rand) c10Spec {
 			s.BgNotes = append(s.BgNotes, r.Intn(14))
 		}
 	}
-	s.Real = r.Chance(1, 8) // drawn last: the other members of a case do not depend on it
+	s.Real = r.Chance(1, 8) // drawn after the scenario: the other members of a case do not depend on it
+	// Later dimensions, drawn after everything above so that the older members of a case stay what they were.
+	s.Proto = r.Choose("", "", "2025-11-25", "2025-03-26", "2025-03-26")
+	s.InitNote = r.Chance(1, 4)
+	for i := range s.Reqs {
+		s.Reqs[i].StrID = r.Chance(1, 5) // of two requests sharing a number, one may now carry it as a string: no longer the same id
+	}
+	uses := map[string]int{}
+	for _, q := range s.Reqs {
+		uses[q.idKey()]++
+	}
+	if strings.HasPrefix(s.Mode, "stateful") {
+		// an id used again once its first request has been answered; with a store the second exchange is often cut and resumed
+		for _, q := range s.Reqs {
+			if q.CutMs >= 0 || q.Late || q.S2CTimeout || uses[q.idKey()] > 1 || !r.Chance(1, 8) {
+				continue
+			}
+			a := c10Req{Sess: q.Sess, ID: q.ID, StrID: q.StrID, StartMs: r.Intn(3), Pre: r.Range(1, 3), GapMs: r.Intn(3), CutMs: -1, After: q.Inst, Inst: len(s.Reqs) + 1}
+			if s.Store && s.Mode == "stateful-sse" && r.Chance(2, 3) {
+				a.CutMs = r.Intn(5)
+			}
+			s.Reqs = append(s.Reqs, a)
+		}
+	}
+	if s.Proto == "2025-03-26" {
+		// legacy JSON-RPC batches: several calls of a session in one POST, answered on one exchange as each of them completes
+		for i := 0; i < s.Sessions; i++ {
+			var el []int
+			for k, q := range s.Reqs {
+				if q.Sess == i && q.CutMs < 0 && q.After == 0 && uses[q.idKey()] == 1 {
+					el = append(el, k)
+				}
+			}
+			if len(el) >= 2 && r.Chance(3, 4) {
+				for _, k := range el[:r.Range(2, len(el))] {
+					s.Reqs[k].Batch = i + 1
+				}
+			}
+		}
+	}
 	return s
 }
 
@@ -119,6 +175,8 @@ func TestVerifC10(t *testing.T) {
 		Cases:    vh.Pick(1200, 40000),
 		Rule: "each case: 1..5 sessions x 1..5 concurrent tools/call requests with the same JSON-RPC ids 1..5 in every session, started within 6 ms; each handler sends 0..3 tagged notifications (0..3 ms apart), optionally a server->client roots/list request (answered by the raw client), then its tagged result; " +
 			"0..3 out-of-band notifications per session; stateful/stateless x SSE/JSON responses, with/without event store; 1/4 of SSE requests with a store are cut after 0..7 ms and resumed with Last-Event-ID. " +
+			"sessions negotiate 2025-06-18, 2025-11-25 or 2025-03-26; on 2025-03-26 up to all calls of a session travel in one POST as a JSON-RPC batch; 1/5 of the ids travel as strings (\"2\" next to 2); 1/8 of the ids are used again once their first request has been answered (with a store: cut and resumed); " +
+			"in 1/4 of the cases a receiving middleware reports progress while initialize is handled. " +
 			"non-trivial: >=2 sessions or >=2 concurrent requests in one session, and >=3 messages routed. distinct = distinct (mode, store, request pattern)",
 		MinNontrivial: 100,
 		Assumptions:   []string{"the raw client keeps every stream it opened attached until the request completes (except deliberate cuts)", "a message emitted after its request stream was cut and before the resume may be delivered only by the resume"},
@@ -205,6 +263,18 @@ func runC10(c *vh.Case, spec c10Spec) {
 	server.AddResource(&mcp.Resource{URI: "file:///shared", Name: "shared"}, func(context.Context, *mcp.ReadResourceRequest) (*mcp.ReadResourceResult, error) {
 		return &mcp.ReadResourceResult{}, nil
 	})
+	var initOf atomic.Int64 // index of the session being initialized (sessions are set up one after another)
+	if spec.InitNote {
+		server.AddReceivingMiddleware(func(next mcp.MethodHandler) mcp.MethodHandler {
+			return func(ctx context.Context, method string, req mcp.Request) (mcp.Result, error) {
+				if ss, ok := req.GetSession().(*mcp.ServerSession); ok && method == "initialize" {
+					// issued while handling the initialize request, with its context
+					ss.NotifyProgress(ctx, &mcp.ProgressNotificationParams{ProgressToken: "init", Progress: 1, Message: emit(c10Tag{int(initOf.Load()), 0, 1, "init", 0})})
+				}
+				return next(ctx, method, req)
+			}
+		})
+	}
 	var lmu sync.Mutex
 	loggers := map[*mcp.ServerSession]*slog.Logger{} // one logging handler per session, shared by its requests
 	server.AddTool(&mcp.Tool{Name: "chat", InputSchema: json.RawMessage(`{"type":"object"}`)}, func(ctx context.Context, req *mcp.CallToolRequest) (*mcp.CallToolResult, error) {
@@ -270,7 +340,11 @@ func runC10(c *vh.Case, spec c10Spec) {
 	if spec.Real {
 		ip = newC10Real(h)
 	}
-	base := map[string]string{"Content-Type": "application/json", "Accept": "application/json, text/event-stream", "Mcp-Protocol-Version": "2025-06-18"}
+	proto := spec.Proto
+	if proto == "" {
+		proto = "2025-06-18"
+	}
+	base := map[string]string{"Content-Type": "application/json", "Accept": "application/json, text/event-stream", "Mcp-Protocol-Version": proto}
 	hdr := func(sid string) map[string]string {
 		m := map[string]string{}
 		for k, v := range base {
@@ -287,7 +361,18 @@ func runC10(c *vh.Case, spec c10Spec) {
 	ssOf := make([]*mcp.ServerSession, spec.Sessions)
 	// absorb inspects one JSON-RPC message received on an exchange
 	s2cTag := map[string]c10Tag{} // "<sess>/<jsonrpc id of the nested request>" -> tag
-	absorb := func(data string, exSess int, exKind string, exReq int, exInst int, sid string) {
+	// (members: instance -> request of the requests that opened the exchange together, for a batch)
+	var absorb func(data string, exSess int, exKind string, exReq int, exInst int, sid string, members map[int]int)
+	absorb = func(data string, exSess int, exKind string, exReq int, exInst int, sid string, members map[int]int) {
+		if strings.HasPrefix(data, "[") {
+			// JSON-response mode answers a batch with an array
+			var arr []json.RawMessage
+			json.Unmarshal([]byte(data), &arr)
+			for _, one := range arr {
+				absorb(string(one), exSess, exKind, exReq, exInst, sid, members)
+			}
+			return
+		}
 		var m struct {
 			ID     json.RawMessage `json:"id"`
 			Method string          `json:"method"`
@@ -339,6 +424,9 @@ func runC10(c *vh.Case, spec c10Spec) {
 			raw = m.Result.Content[0].Text
 		}
 		if t, ok := parseC10Tag(raw); ok {
+			if r, ok := members[t.Inst]; ok && r == t.Req {
+				exReq, exInst = r, t.Inst // the exchange of a batch belongs to each of its requests
+			}
 			smu.Lock()
 			seen = append(seen, c10Seen{Tag: t, ExSess: exSess, ExKind: exKind, ExReq: exReq, ExInst: exInst, Wire: trunc80(data)})
 			smu.Unlock()
@@ -349,14 +437,37 @@ func runC10(c *vh.Case, spec c10Spec) {
 	standCancel := make([]context.CancelFunc, spec.Sessions)
 	lastStandID := make([]string, spec.Sessions)
 	var lastStandMu sync.Mutex
+	initBody := []byte(`{"jsonrpc":"2.0","id":"init","method":"initialize","params":{"protocolVersion":"` + proto + `","capabilities":{"roots":{}},"clientInfo":{"name":"raw","version":"0"}}}`)
+	// absorbInit inspects what the exchange of an initialize request carried
+	absorbInit := func(rh http.Header, body []byte, exSess int, sid string) {
+		if strings.HasPrefix(rh.Get("Content-Type"), "text/event-stream") {
+			vhm.ReadSSE(bytes.NewReader(body), func(e vhm.SSEvent) { absorb(e.Data, exSess, "init", 0, 0, sid, nil) })
+		} else {
+			absorb(string(body), exSess, "init", 0, 0, sid, nil)
+		}
+	}
+	if !stateful && spec.InitNote {
+		// a stateless server answers initialize as well (every POST is its own session)
+		for i := 0; i < spec.Sessions; i++ {
+			initOf.Store(int64(i))
+			st, rh, body, err := ip.Do(ctx, "POST", "http://example.test/mcp", hdr(""), initBody)
+			if err != nil || st != 200 {
+				c.Inconclusive("stateless initialize %d: %d %v", i, st, err)
+				return
+			}
+			absorbInit(rh, body, -1, "")
+		}
+	}
 	if stateful {
 		for i := 0; i < spec.Sessions; i++ {
-			st, rh, _, err := ip.Do(ctx, "POST", "http://example.test/mcp", hdr(""), []byte(`{"jsonrpc":"2.0","id":"init","method":"initialize","params":{"protocolVersion":"2025-06-18","capabilities":{"roots":{}},"clientInfo":{"name":"raw","version":"0"}}}`))
+			initOf.Store(int64(i))
+			st, rh, body, err := ip.Do(ctx, "POST", "http://example.test/mcp", hdr(""), initBody)
 			if err != nil || st != 200 {
 				c.Inconclusive("initialize session %d: %d %v", i, st, err)
 				return
 			}
 			sids[i] = rh.Get("Mcp-Session-Id")
+			absorbInit(rh, body, i, sids[i])
 			ip.Do(ctx, "POST", "http://example.test/mcp", hdr(sids[i]), []byte(`{"jsonrpc":"2.0","method":"notifications/initialized"}`))
 			ip.Do(ctx, "POST", "http://example.test/mcp", hdr(sids[i]), []byte(`{"jsonrpc":"2.0","id":"sub","method":"resources/subscribe","params":{"uri":"file:///shared"}}`))
 			ip.Do(ctx, "POST", "http://example.test/mcp", hdr(sids[i]), []byte(`{"jsonrpc":"2.0","id":"lvl","method":"logging/setLevel","params":{"level":"debug"}}`))
@@ -388,7 +499,7 @@ func runC10(c *vh.Case, spec c10Spec) {
 						lastStandID[i] = e.ID
 						lastStandMu.Unlock()
 					}
-					absorb(e.Data, i, "standalone", 0, 0, sids[i])
+					absorb(e.Data, i, "standalone", 0, 0, sids[i], nil)
 				})
 				resp.Body.Close()
 			}()
@@ -403,7 +514,9 @@ func runC10(c *vh.Case, spec c10Spec) {
 	{
 		n := map[string]int{}
 		for _, q := range spec.Reqs {
-			n[fmt.Sprintf("%d/%d", q.Sess, q.ID)]++
+			if q.After == 0 { // (a request that waits for the answer to its predecessor does not compete with it)
+				n[q.idKey()]++
+			}
 		}
 		for k, v := range n {
 			if v > 1 {
@@ -411,19 +524,53 @@ func runC10(c *vh.Case, spec c10Spec) {
 			}
 		}
 	}
-	var wg sync.WaitGroup
+	// one POST per request, or per batch
+	var units [][]c10Req
+	batchAt := map[string]int{}
+	answered := map[int]chan struct{}{} // by Inst: closed when the exchange that carried the request is over
 	for _, q := range spec.Reqs {
-		q := q
+		answered[q.Inst] = make(chan struct{})
+		key := fmt.Sprintf("%d/%d", q.Sess, q.Batch)
+		if at, ok := batchAt[key]; ok && q.Batch > 0 {
+			units[at] = append(units[at], q)
+			continue
+		}
+		batchAt[key] = len(units)
+		units = append(units, []c10Req{q})
+	}
+	var wg sync.WaitGroup
+	for _, unit := range units {
+		unit, q := unit, unit[0]
 		wg.Add(1)
 		go func() {
 			defer wg.Done()
 			defer c.Guard("")
+			defer func() {
+				for _, m := range unit {
+					close(answered[m.Inst])
+				}
+			}()
+			if q.After > 0 {
+				<-answered[q.After]
+			}
 			time.Sleep(ms(q.StartMs))
 			sid, exSess := "", -1
 			if stateful {
 				sid, exSess = sids[q.Sess], q.Sess
 			}
-			body := fmt.Sprintf(`{"jsonrpc":"2.0","id":%d,"method":"tools/call","params":{"name":"chat","arguments":{"sess":%d,"req":%d,"pre":%d,"gap":%d,"s2c":%v,"inst":%d,"late":%v,"s2ctimeout":%v,"upd":%v,"logs":%d,"mrtr":%v}}}`, q.ID, q.Sess, q.ID, q.Pre, q.GapMs, q.S2C, q.Inst, q.Late, q.S2CTimeout, q.Upd, q.Logs, q.MRTR)
+			var members map[int]int
+			var calls []string
+			for _, m := range unit {
+				calls = append(calls, fmt.Sprintf(`{"jsonrpc":"2.0","id":%s,"method":"tools/call","params":{"name":"chat","arguments":{"sess":%d,"req":%d,"pre":%d,"gap":%d,"s2c":%v,"inst":%d,"late":%v,"s2ctimeout":%v,"upd":%v,"logs":%d,"mrtr":%v}}}`, m.wire(), m.Sess, m.ID, m.Pre, m.GapMs, m.S2C, m.Inst, m.Late, m.S2CTimeout, m.Upd, m.Logs, m.MRTR))
+			}
+			body := calls[0]
+			if q.Batch > 0 {
+				body = "[" + strings.Join(calls, ",") + "]"
+				members = map[int]int{}
+				for _, m := range unit {
+					members[m.Inst] = m.ID
+				}
+			}
 			ectx, cancel := context.WithCancel(ctx)
 			defer cancel()
 			req, _ := http.NewRequestWithContext(ectx, "POST", "http://example.test/mcp", strings.NewReader(body))
@@ -444,7 +591,7 @@ func runC10(c *vh.Case, spec c10Spec) {
 				log.Add("post-cut-before-headers", "sess", q.Sess, "req", q.ID)
 				return
 			}
-			if resp.StatusCode == 400 && dupID[fmt.Sprintf("%d/%d", q.Sess, q.ID)] {
+			if resp.StatusCode == 400 && q.After == 0 && dupID[q.idKey()] {
 				log.Add("duplicate-id-refused", "sess", q.Sess, "req", q.ID, "inst", q.Inst)
 				resp.Body.Close()
 				return
@@ -460,7 +607,7 @@ func runC10(c *vh.Case, spec c10Spec) {
 					if e.ID != "" {
 						last = e.ID
 					}
-					absorb(e.Data, exSess, "post", q.ID, q.Inst, sid)
+					absorb(e.Data, exSess, "post", q.ID, q.Inst, sid, members)
 				})
 			} else {
 				var buf strings.Builder
@@ -472,7 +619,7 @@ func runC10(c *vh.Case, spec c10Spec) {
 						break
 					}
 				}
-				absorb(buf.String(), exSess, "post", q.ID, q.Inst, sid)
+				absorb(buf.String(), exSess, "post", q.ID, q.Inst, sid, members)
 			}
 			resp.Body.Close()
 			if q.CutMs >= 0 && !q.Drop && ectx.Err() != nil && last != "" {
@@ -500,7 +647,7 @@ func runC10(c *vh.Case, spec c10Spec) {
 						rresp.Body.Close()
 						break
 					}
-					vhm.ReadSSE(rresp.Body, func(e vhm.SSEvent) { absorb(e.Data, exSess, "resume", q.ID, q.Inst, sid) })
+					vhm.ReadSSE(rresp.Body, func(e vhm.SSEvent) { absorb(e.Data, exSess, "resume", q.ID, q.Inst, sid, nil) })
 					rresp.Body.Close()
 					break
 				}
@@ -573,7 +720,7 @@ func runC10(c *vh.Case, spec c10Spec) {
 			streams.Add(1)
 			go func() {
 				defer streams.Done()
-				vhm.ReadSSE(resp.Body, func(e vhm.SSEvent) { absorb(e.Data, i, "standalone", 0, 0, sids[i]) })
+				vhm.ReadSSE(resp.Body, func(e vhm.SSEvent) { absorb(e.Data, i, "standalone", 0, 0, sids[i], nil) })
 				resp.Body.Close()
 			}()
 		}
@@ -594,11 +741,9 @@ func runC10(c *vh.Case, spec c10Spec) {
 	// ------------------------------------------------------------ oracle
 	smu.Lock()
 	defer smu.Unlock()
-	cutReq := map[string]bool{}
+	loose := map[int]bool{} // by Inst: the exchange is cut, or the id is deliberately used by two requests at once
 	for _, q := range spec.Reqs {
-		if q.CutMs >= 0 {
-			cutReq[fmt.Sprintf("%d/%d", q.Sess, q.ID)] = true
-		}
+		loose[q.Inst] = q.CutMs >= 0 || (q.After == 0 && dupID[q.idKey()])
 	}
 	count := map[string]int{}
 	updSeen := map[string]int{}
@@ -642,6 +787,17 @@ func runC10(c *vh.Case, spec c10Spec) {
 			// (wall-clock mode: the notice is sent asynchronously; the request it belongs to may have completed by then, and it then rightly travels on the standalone stream)
 			if !jsonMode && (s.ExKind == "standalone" || s.ExReq != t.Req) && !(spec.Real && s.ExKind == "standalone") {
 				c.Violate("in-request-message-misrouted", "the cancellation of nested request %s was issued while handling request %d but travelled on the %s exchange of request %d", t, t.Req, s.ExKind, s.ExReq)
+				return
+			}
+		case "init":
+			// issued while handling the initialize request: on its exchange, or (JSON-response mode) on the standalone stream --
+			// which cannot be attached yet, so only a replay from the event store can carry it
+			if jsonMode && s.ExKind != "standalone" {
+				c.Violate("in-request-message-misrouted", "JSON-response mode: %s must travel on the standalone stream, seen on the %s exchange of request %d", t, s.ExKind, s.ExReq)
+				return
+			}
+			if !jsonMode && s.ExKind != "init" {
+				c.Violate("in-request-message-misrouted", "%s was issued while handling the initialize request but travelled on the %s exchange of request %d", t, s.ExKind, s.ExReq)
 				return
 			}
 		case "result":
@@ -696,8 +852,12 @@ func runC10(c *vh.Case, spec c10Spec) {
 			}
 			continue
 		}
-		if cutReq[fmt.Sprintf("%d/%d", t.Sess, t.Req)] || dupID[fmt.Sprintf("%d/%d", t.Sess, t.Req)] || strings.Contains(tag, "/late") {
+		fmt.Sscanf(tag[strings.LastIndex(tag, "#"):], "#%d", &t.Inst)
+		if loose[t.Inst] || strings.Contains(tag, "/late") {
 			continue // cut exchanges, deliberately duplicated ids and late messages: delivery is not fixed
+		}
+		if jsonMode && strings.Contains(tag, "/init") {
+			continue // no standalone stream can be attached while initialize is handled
 		}
 		if !stateful && (strings.Contains(tag, "/s2c") || (jsonMode && strings.Contains(tag, "/note"))) {
 			continue // no stream exists for these in stateless / JSON mode
